@@ -254,6 +254,20 @@ fn ref_sign(d: &BigUint, tx: &RTx, idx: usize, subscript: &[Tok], value: u64, fl
     Some(sig)
 }
 
+/// Reference signer with a caller-chosen nonce (used to reach DER encodings of unusual length).
+fn ref_sign_k(d: &BigUint, tx: &RTx, idx: usize, subscript: &[Tok], value: u64, flag: u32, k: &BigUint) -> Option<(Vec<u8>, usize, usize)> {
+    let pre = match sh::preimage(tx, idx, &rs::serialize(subscript), value, flag) {
+        Pre::Bytes(p) => p,
+        _ => return None,
+    };
+    let digest = hashes::sha256d(&pre);
+    let z = secp::from_be(&digest) % secp::n();
+    let s = secp::sign_with_k(d, &z, k, true)?;
+    let mut sig = secp::der_encode(&s.r, &s.s);
+    sig.push(flag as u8);
+    Some((sig, s.r.to_bytes_be().len(), s.s.to_bytes_be().len()))
+}
+
 #[derive(Clone)]
 struct Family {
     name: String,
@@ -666,6 +680,49 @@ pub fn spaces(tier: Tier) -> Vec<Space> {
             let fam = &fams[c[0] as usize];
             let Some(sp) = build_spend(&ks2, fam, fam.locking.clone(), base_tx(2, 2), 1, 77, STD_FLAGS[c[1] as usize]) else { return };
             judge(acc, case, &sp, &fam.name, "repeated-keys-or-signers", false);
+        }));
+    }
+    // (1g) signatures whose DER encoding is unusually short: nonce 1/2 mod n gives a 21-byte r; the locktime is searched
+    // until s also loses at least one leading byte. Valid spends, so the interpreter must accept them.
+    {
+        let fams: Vec<Family> = families(&ks, 0).into_iter().filter(|f| f.name == "P2PK/CHECKSIG" || f.name == "P2PKH/CHECKSIG" || f.name == "1-of-2 signers [1]/CHECKMULTISIG" || f.name == "2-of-2 signers [0, 1]/CHECKMULTISIG").collect();
+        let fams = Arc::new(fams);
+        let nf = fams.len() as u64;
+        let ks2 = ks.clone();
+        v.push(Space::new("short-der-signatures", nf * 12 * 2, move |case, acc| {
+            let c = coords(case.idx, &[nf, 12, 2]);
+            let fam = &fams[c[0] as usize];
+            let flag = STD_FLAGS[c[1] as usize];
+            let half_inv = (secp::n() + 1u32) >> 1; // 1/2 mod n
+            let sub = signing_subscript(&fam.locking);
+            let mut tx = base_tx(2, 2);
+            let mut found = None;
+            for lt in 0..4000u32 {
+                tx.locktime = lt;
+                let sigs: Option<Vec<(Vec<u8>, usize, usize)>> = fam.signers.iter().map(|sg| ref_sign_k(&ks2.d[*sg], &tx, 0, &sub, 4242, flag, &half_inv)).collect();
+                let Some(sigs) = sigs else { return };
+                if c[2] == 0 || sigs.iter().any(|x| x.2 < 32) {
+                    found = Some(sigs);
+                    break;
+                }
+            }
+            let Some(sigs) = found else {
+                acc.bump("short_s_not_found_within_search", 1);
+                return;
+            };
+            acc.bump(&format!("short_sig_total_len_{}", sigs[0].0.len()), 1);
+            let mut unlocking = vec![];
+            if fam.multisig {
+                unlocking.push(Tok::Op(0));
+            }
+            for sg in &sigs {
+                unlocking.push(push(&sg.0));
+            }
+            for t in &fam.tail {
+                unlocking.push(push(t));
+            }
+            let sp = Spend { tx, idx: 0, value: 4242, unlocking, locking: fam.locking.clone() };
+            judge(acc, case, &sp, &fam.name, "short-der-signature", true);
         }));
     }
     // (1d) histories on ONE library object: sign on it (fills its sighash cache), attach the unlocking script, mutate it
